@@ -810,6 +810,37 @@ example : pyModGen (exactModOps rndQuarter) (-1/100 : Rat) 5 = .ok 5 ∧
     pyModGen (exactModOps (id : Rat → Rat)) (-1/100) 5 = .ok (499/100) := by decide +kernel
 example : stripZeros 6 40 (-3) = (5, 0) := by decide +kernel
 
+/-! ### D28: the batch size is computed only when modulo and step are numbers
+
+`steps = int(modulo / step)` sits in the two branches whose modulo and step are numbers.  If that
+conversion raises (binary64: `modulo / step` overflows to `inf` for finite arguments such as
+`modulo_counter(0., 16., 2.**-1022)` or `(0., 1e300, 1e-10)`; `int(inf)` is an OverflowError), the
+call raises at its first read, while the SAME call with `Stream(step)` never computes a batch size
+and yields the counter: "identically whether its arguments are numbers or streams" fails there.
+For any number operations: -/
+
+/-- **C19.float.16** (known finding D28) whatever the number operations, a failing `int(modulo/step)`
+ends the all-numbers call (and the one with only `start` iterable) before its first output, while
+with the step given as a stream the first output is `start % modulo % modulo` as always. -/
+theorem counter_batch_size_error_numbers_only {α : Type} (o : NumOps α) (a m s : α) (ps ss : List α)
+    (n : Nat) (e : String) (hs : o.isZero s = false) (he : o.trunc (o.div m s) = .error e) :
+    mcG o (.num a) (.num m) (.num s) n = ([], some e) ∧
+    mcG o (.strm ps) (.num m) (.num s) n = ([], some e) ∧
+    ∀ c, mod2G o a m = .ok c → (mcG o (.num a) (.num m) (.strm (s :: ss)) (n + 1)).1.head? = some c := by
+  refine ⟨by simp [mcG, hs, he], by simp [mcG, hs, he], ?_⟩
+  intro c hc
+  simp [mcG, gS, hc, rcons]
+
+/-- exact operations whose `int()` refuses values beyond ±1000 (a toy overflow) -/
+def overflowOps : NumOps Rat :=
+  { (fieldOps : NumOps Rat) with
+    trunc := fun x => if 1000 < x ∨ x < -1000 then .error "OverflowError" else .ok (pyInt x) }
+
+example : overflowOps.isZero (1/1000) = false ∧ overflowOps.trunc (overflowOps.div 16 (1/1000)) = .error "OverflowError" ∧
+    mcG overflowOps (.num 0) (.num 16) (.num (1/1000)) 3 = ([], some "OverflowError") ∧
+    mcG overflowOps (.num 0) (.num 16) (.strm [1/1000, 1/1000, 1/1000]) 3 = ([0, 1/1000, 1/500], none) := by
+  decide +kernel
+
 end ALV.Props.C19
 
 #write_audit "C19"
